@@ -16,6 +16,8 @@ Template syntax (units/*.vrs) -- plain Verus text plus directive lines:
   //@ header <signature text>      replaces the repository signature (required for slice/arm)
   //@ ret <name>                   whole fn: name the return value  `-> T`  =>  `-> (name: T)`
   //@ tail <expr>                  appended as the slice's result expression
+  //@ early-return                 the slice may contain `return`/`?`/bail!: its function returns Result, Err(..) = the real
+                                   function returns early from inside the slice, the tail Ok(..) = it falls through
   //@ rule R2 | R2v | R6 | R7 | R10 | R11 | R12 | R16 ...   built-in structural rewrites (vfw/rules.py)
   //@ rewrite <Rid> /regex/ => replacement          declared sub-expression rewrite (logged per application)
   //@ contract                     following lines up to next //@ : requires/ensures text
@@ -105,6 +107,7 @@ class Block:
         self.texts = []      # (kind, arg, text, tpl_line)
         self.contract_only = False
         self.attrs = []
+        self.early_return = False
         self.imported_from = None
 
 
@@ -191,6 +194,8 @@ def parse_template(path):
                 cur.header = arg
             elif key == 'ret':
                 cur.ret = arg
+            elif key == 'early-return':
+                cur.early_return = True
             elif key == 'attr':
                 cur.attrs.append(arg)
             elif key == 'tail':
@@ -382,7 +387,8 @@ def expand_block(blk, gen, unit_id):
             raise ExtractError('slice end shares a line with other code in %s' % blk.label)
         body = rf.text[a:nl]
         base = line_of(rf.text, a)
-        check_slice_shape(mask(body), blk.label)
+        if not blk.early_return:
+            check_slice_shape(mask(body), blk.label)
     elif blk.arm:
         kind = 'match-arm-slice'
         a = rf.unique_line(blk.arm, body_lo, body_hi, 'arm')
